@@ -129,7 +129,8 @@ func (p *Parser) Parse() (al align.Alignment, err error) {
 			break
 		}
 
-		if tok == IDENT || tok == NUMERIC {
+		// After the header, "stockholm" is a sequence name like any other
+		if tok == IDENT || tok == NUMERIC || tok == STOCKHOLM {
 			name := lit
 			tok, lit = p.scanIgnoreWhitespace()
 			if tok != IDENT {
